@@ -47,3 +47,36 @@ def register(reg):
         ("LExpr.__floordiv__ is LExpr.__div__", lambda: L.LExpr.__floordiv__ is L.LExpr.__div__),
         ("LExpr.__rfloordiv__ is LExpr.__rdiv__", lambda: L.LExpr.__rfloordiv__ is L.LExpr.__rdiv__),
     ]
+
+
+def register_dtypes(reg):
+    """merge_dtypes lattice, _math_function simplifications (C09)."""
+    import types as _t
+
+    from pyvc.contract import Const, Enum, ListOf, Rec, Ref, Str
+
+    DT = list(L.DataType)
+    reg.add(Contract(F + "merge_dtypes", dict(dtypes=ListOf(Ref(*DT), (1, 3))),
+                     requires=["L.DataType.NONE not in dtypes"],
+                     ensures=["result == (L.DataType.SCALAR if L.DataType.SCALAR in dtypes else (L.DataType.REAL if L.DataType.REAL in dtypes"
+                              " else (L.DataType.INT if L.DataType.INT in dtypes else L.DataType.BOOL)))"],
+                     properties=["C09"], modular=False, bounded="len(dtypes) <= 3",
+                     mutants=[("if DataType.SCALAR in dtypes:\n        return DataType.SCALAR\n    elif DataType.REAL in dtypes:\n        return DataType.REAL",
+                               "if DataType.REAL in dtypes:\n        return DataType.REAL\n    elif DataType.SCALAR in dtypes:\n        return DataType.SCALAR")]))
+    OP = Enum(*[_t.SimpleNamespace(_ufl_handler_name_=n) for n in ("conj", "real", "imag", "sqrt", "abs")])
+    ARG = Custom(lambda interp, name: _typed_lexpr(interp, name))
+    reg.add(Contract(F + "_math_function", dict(op=OP, a0=ARG), call=["op", "a0"],
+                     ensures=[
+                         "implies(a0.dtype == L.DataType.REAL and op._ufl_handler_name_ in ('conj', 'real'), result is a0)",
+                         "implies(a0.dtype == L.DataType.REAL and op._ufl_handler_name_ == 'imag',"
+                         " isinstance(result, L.LiteralFloat) and result.value == 0.0)",
+                         "implies(a0.dtype != L.DataType.REAL or op._ufl_handler_name_ in ('sqrt', 'abs'),"
+                         " isinstance(result, L.MathFunction) and result.function == op._ufl_handler_name_ and result.args[0] is a0)",
+                     ],
+                     properties=["C09", "C17"], modular=False,
+                     mutants=[('if name in ("conj", "real") and dtype == DataType.REAL:', 'if name in ("conj", "real"):'),
+                              ("return LiteralFloat(0.0)", "return args[0]")]))
+
+
+def _typed_lexpr(interp, name):
+    return S.lexpr(interp, name)
